@@ -44,7 +44,7 @@ def concretise(v, lo, hi):
     return v
 
 
-@lemma('O1.filter', 'C19', quick=[{'k': k} for k in (1, 2, 3)], thorough=[{'k': k} for k in (1, 2, 3, 4)], timeout=400,
+@lemma('O1.filter', 'C19', quick=[{'k': k} for k in (1, 2, 3)] + [{'k': k, 'same': True} for k in (2, 3)], thorough=[{'k': k} for k in (1, 2, 3, 4)] + [{'k': k, 'same': True} for k in (2, 3, 4)], timeout=400,
        stubs=['heading tokens', 'render_inner', 'filter predicates', 'HtmlRenderer.render_heading -> level-independent template'],
        covers=['contrib/toc_renderer.py:TocRenderer.render_heading', 'contrib/toc_renderer.py:TocRenderer.parse_rendered_heading'],
        note='k headings with ALL integer levels, depth (unbounded int), omit_title, per-heading filter verdicts symbolic')
@@ -56,6 +56,10 @@ def o1_filter(l1: int, l2: int, l3: int, l4: int, depth: int, omit_title: bool, 
     levels = [l1, l2, l3, l4][:k]
     verdicts = [f1, f2, f3, f4][:k]
     words = ['w%d' % i for i in range(k)]
+    if P('same', False):
+        # repeated titles ("Options" under every chapter): all headings carry the same text, one filter verdict for it
+        words = ['w'] * k
+        verdicts = [f1] * k
     skip = dict(zip(words, verdicts))
     try:
         with _StubbedHeading():
